@@ -482,6 +482,116 @@ def c_known_iter_search(eng, st, fr, f, args, site):
     return outs
 
 
+def _mk_known(eng, it, elems, rt):
+    return Cont("iter:arr", "arrit#%d" % eng._hv(), Lin.const(len(elems)), None, (("elems", tuple(elems), 0),), rt if rt is not None else it.ty)
+
+
+@contract(r"(^|[ :<])(std|core)::iter::Iterator::(filter|map|count|fold|sum|for_each|rev|copied|cloned|enumerate)(::<.*>)?$|^<(std|core)::iter::(Filter|Map|Rev|Copied|Cloned|Enumerate)<.*> as (std|core)::iter::Iterator>::(count|fold|sum|for_each)$")
+def c_known_iter_adaptors(eng, st, fr, f, args, site):
+    """Iterator adaptors / consumers over an iterator whose elements are known (an array literal, a constant table):
+    evaluated eagerly, element by element, with the closures analysed on each element."""
+    it = force(eng, st, args[0]) if not isinstance(args[0], Ref) else _known_iter(eng, st, args[0])
+    if not (isinstance(it, Cont) and it.kind == "iter:arr" and it.segs and it.segs[0][0] == "elems"):
+        return None
+    rt = ret_ty(eng, site)
+    op = re.sub(r"::<.*$", "", f["path"]).split("::")[-1]
+    _, elems, pos = it.segs[0]
+    elems = list(elems[pos:])
+    if len(elems) > 16:
+        return None
+    if op == "count":
+        return [(st, int_const(len(elems), 64, False))]
+    if op == "rev":
+        return [(st, _mk_known(eng, it, list(reversed(elems)), rt))]
+    if op in ("copied", "cloned"):
+        vals = [deref(eng, st, e) if isinstance(e, Ref) else e for e in elems]
+        return [(st, _mk_known(eng, it, vals, rt))]
+    if op == "enumerate":
+        return [(st, _mk_known(eng, it, [Struct(None, (int_const(i, 64, False), e)) for i, e in enumerate(elems)], rt))]
+    if op == "sum":
+        vals = [deref(eng, st, e) if isinstance(e, Ref) else e for e in elems]
+        if not all(isinstance(v, Int) for v in vals):
+            return None
+        ii = eng.T.int_info(rt)
+        if not ii:
+            return None
+        tot = Lin.const(0)
+        for v in vals:
+            tot = tot.add(v.lin)
+        return [(st, Int(tot, None, ii[0], ii[1], frozenset()))]
+    if len(args) < 2:
+        return None
+    if op == "filter":
+        live = [(st, [])]
+        for e in elems:
+            nxt = []
+            for s0, kept in live:
+                loc = "obj:filtarg#%d" % eng._hv()
+                s0.locs[loc] = e
+                res = call_closure(eng, s0, fr, args[1], [Ref(loc, (), False)], site)
+                if res is None:
+                    return None
+                for s1, v in res:
+                    if not isinstance(v, Bool):
+                        return None
+                    for truth in (True, False):
+                        s2 = s1.fork()
+                        try:
+                            ki = eng.assume(s2, v.cond, truth)
+                        except Dead:
+                            continue
+                        if ki is not None and ki not in s2.key:
+                            s2.key = s2.key + (ki,)
+                        elif ki is None:
+                            s2.key = s2.key + (("flt", it.id, len(kept) if truth else -1, truth),)
+                        nxt.append((s2, kept + [e] if truth else kept))
+            live = nxt
+            if len(live) > 64:
+                return None
+        return [(s0, _mk_known(eng, it, kept, rt)) for s0, kept in live]
+    if op == "map":
+        live = [(st, [])]
+        for e in elems:
+            nxt = []
+            for s0, done in live:
+                res = call_closure(eng, s0, fr, args[1], [e], site)
+                if res is None:
+                    return None
+                for s1, v in res:
+                    nxt.append((s1, done + [v]))
+            live = nxt
+            if len(live) > 64:
+                return None
+        return [(s0, _mk_known(eng, it, done, rt)) for s0, done in live]
+    if op == "for_each":
+        live = [st]
+        for e in elems:
+            nxt = []
+            for s0 in live:
+                res = call_closure(eng, s0, fr, args[1], [e], site)
+                if res is None:
+                    return None
+                nxt.extend(s1 for s1, _ in res)
+            live = nxt
+            if len(live) > 64:
+                return None
+        return [(s0, UNIT) for s0 in live]
+    if op == "fold" and len(args) >= 3:
+        live = [(st, args[1])]
+        for e in elems:
+            nxt = []
+            for s0, acc in live:
+                res = call_closure(eng, s0, fr, args[2], [acc, e], site)
+                if res is None:
+                    return None
+                nxt.extend(res)
+            live = nxt
+            if len(live) > 64:
+                return None
+        return live
+    return None
+
+
 @contract(r"^<(std|core)::array::IntoIter<T, N> as (std|core)::iter::Iterator>::next$|^(std|core)::array::iter::<impl (std|core)::iter::Iterator for (std|core)::array::IntoIter<T, N>>::next$")
 def c_array_iter_next(eng, st, fr, f, args, site):
     r = args[0]
